@@ -73,7 +73,7 @@ def gen(seed, tier):
             cases.append(p + " / " + rand_schedule(r, r.choice([8, 20, 35, 60])))
     stats["random_programs"] = nprog
     stats["random_cases"] = nprog * nsched
-    enum = [(p, 60000) for p in EXHAUSTIVE_QUICK]
+    enum = [(p, 15000) for p in EXHAUSTIVE_QUICK]
     if tier != "quick":
         enum += [(p, 60000) for p in EXHAUSTIVE_THOROUGH]
     return cases, stats, enum
